@@ -21,7 +21,7 @@ WF == [ no_deps |-> {Bare("no_deps"), Eq("no_deps", "true"), Eq("no_deps", "fals
         unimock |-> {Bare("unimock"), Eq("unimock", "true"), Eq("unimock", "false")},
         mockall |-> {Bare("mockall"), Eq("mockall", "false")},
         mock_api |-> {Eq("mock_api", "Mk")},
-        send    |-> {Bare("?Send")},
+        send    |-> {Bare("?Send"), Eq("?Send", "true"), Eq("?Send", "false")},
         debug   |-> {Eq("debug", "false")},
         delegate |-> {Eq("delegate_by", "ref"), Eq("delegate_by", "Self")} ]
 KeysFor(target) == CASE target = "fn" -> {"no_deps", "export", "unimock", "mockall", "mock_api", "send", "debug"}
@@ -41,7 +41,7 @@ BasesOK == UNION { { Inv(t, os, m, f) : os \in OptLists(t), m \in Macros, f \in 
 \* ---- transformations (the relations of the statement)
 SetOpts(b, os) == [b EXCEPT !.attr.opts = os]
 BareTrue(b) == { [rel |-> "bare=true", left |-> b, right |-> SetOpts(b, [b.attr.opts EXCEPT ![i] = IF @.f = "bare" THEN Eq(@.k, "true") ELSE Bare(@.k)])]
-                 : i \in { j \in DOMAIN b.attr.opts : b.attr.opts[j].k \in BoolKeys /\ (b.attr.opts[j].f = "bare" \/ b.attr.opts[j].v = "true") } }
+                 : i \in { j \in DOMAIN b.attr.opts : b.attr.opts[j].k \in (BoolKeys \cup {"?Send"}) /\ (b.attr.opts[j].f = "bare" \/ b.attr.opts[j].v = "true") } }
 FalseOmitted(b) == { [rel |-> "false=omitted", left |-> b, right |-> SetOpts(b, InsertAt(b.attr.opts, j, Eq(k, "false")))]
                      : j \in 1..(Len(b.attr.opts) + 1),
                        k \in { kk \in {"no_deps", "export"} : /\ ~HasKey(b.attr.opts, kk) /\ kk \in Accepted(b.target)
@@ -49,7 +49,9 @@ FalseOmitted(b) == { [rel |-> "false=omitted", left |-> b, right |-> SetOpts(b, 
 Order(b) == IF Len(b.attr.opts) < 2 THEN {}
             ELSE { [rel |-> "order", left |-> b, right |-> SetOpts(b, Reverse(b.attr.opts))],
                    [rel |-> "order", left |-> b, right |-> SetOpts(b, Tail(b.attr.opts) \o <<Head(b.attr.opts)>>)] }
-ExportVariant(b) == IF b.macro = "entrait_export" /\ ~HasKey(b.attr.opts, "export") /\ b.target \in {"fn", "mod"}
+\* (trait targets: `export` is not an option there, the trait parser rejects it - but the `entrait_export` variant is accepted and its
+\*  fallback takes effect, so the two sides differ: the named deviation "export-variant-on-trait", see Class below)
+ExportVariant(b) == IF b.macro = "entrait_export" /\ ~HasKey(b.attr.opts, "export") /\ b.target \in {"fn", "mod", "trait"}
                     THEN { [rel |-> "export-variant", left |-> b,
                             right |-> [SetOpts(b, Append(b.attr.opts, Bare("export"))) EXCEPT !.macro = "entrait"]] } ELSE {}
 UnimockFeature(b) == IF b.feature /\ ~HasKey(b.attr.opts, "unimock") /\ b.target \in {"fn", "mod", "trait"}
@@ -106,13 +108,17 @@ ExplicitWins == pc = "done" /\ st.err = "" =>
                   \A i \in DOMAIN b.attr.opts : LET r == ParseOpt(b.attr.opts[i]) IN
                      (\A j \in DOMAIN b.attr.opts : j > i => ParseOpt(b.attr.opts[j]).key # r.key) => st.opts[r.key] = r.val
 \* C17 at design level: the front end is constant on every metamorphic pair
-Metamorphic == pc = "done" => \A p \in PairsOf(b) : Effective(FE(p.left)) = Effective(FE(p.right))
+\* named deviations of the code from Level 1; "" = none known for this pair
+Class(p) == IF p.rel = "export-variant" /\ p.left.target = "trait" /\ FE(p.left).err = "" THEN "export-variant-on-trait" ELSE ""
+Metamorphic == pc = "done" => \A p \in PairsOf(b) : Class(p) = "" => Effective(FE(p.left)) = Effective(FE(p.right))
+\* the deviation is what it is said to be: the macro variant is accepted where the option is rejected
+DeviationIsRejection == pc = "done" => \A p \in PairsOf(b) : Class(p) # "" => FE(p.left).err = "" /\ FE(p.right).err = "unsupported-option"
 
 \* ---- dumps
 AllPairs == UNION { PairsOf(bb) : bb \in BasesOK }
 InvRec(i) == [target |-> i.target, macro |-> i.macro, feature |-> i.feature, text |-> AttrText(i.target, i.attr)]
 PairRec(p) == [kind |-> "pair", rel |-> p.rel, left |-> InvRec(p.left), right |-> InvRec(p.right),
-               prederr |-> FE(p.left).err]
+               prederr |-> FE(p.left).err, cls |-> Class(p)]
 AccRec(c) == [kind |-> "accept", target |-> c.target, key |-> c.tok.k, wellformed |-> WellFormed(c.tok),
               text |-> AttrText(c.target, c.attr), prederr |-> AccPred(c)]
 ASSUME DumpCases => ndJsonSerialize(IOEnv.OUT, SetToSeq({ PairRec(p) : p \in AllPairs }) \o SetToSeq({ AccRec(c) : c \in AccCases }))
